@@ -17,6 +17,13 @@ def scenarios(seed, tier, failed):
         for when in ('after', 'inside', 'before'):
             yield {'kind': 'pubsub', 'spy': spy, 'when': when, 'other_first': True, 'pub_when': 'before',
                    'two_signals': True, 'other_kind': 'lifo', 'timeout': 30}
+    # the subscriber is in the middle of a long step when another thread subscribes it and a publication follows at
+    # once; the publisher is itself subscribed to what it publishes
+    for spy in (True, False):
+        yield {'kind': 'pubsub', 'spy': spy, 'when': 'after', 'other_first': False, 'pub_when': 'before', 'busy': True,
+               'timeout': 30}
+        yield {'kind': 'pubsub', 'spy': spy, 'when': 'after', 'other_first': False, 'pub_when': 'before',
+               'publisher_subscribed': True, 'timeout': 30}
 
 
 def run(sc):
@@ -42,6 +49,9 @@ def run(sc):
                 return return_status.HANDLED
             if e.signal_name in (sig, sig + '_B'):
                 log.append(e.signal_name)
+                return return_status.HANDLED
+            if e.signal_name == 'C07_BUSY':
+                time.sleep(0.4)
                 return return_status.HANDLED
             if e.signal_name == 'C07_DO_PUBLISH':
                 chart.publish(Event(signal=sig))
@@ -75,19 +85,25 @@ def run(sc):
         elif sc['when'] == 'after':
             sub.start_at(sfn)
             time.sleep(0.05)
+            if sc.get('busy'):
+                sub.post_fifo(Event(signal='C07_BUSY'))
+                time.sleep(0.05)
             sub.subscribe(Event(signal=sig))
             if sc.get('two_signals'):
                 sub.subscribe(Event(signal=sig + '_B'))
         else:
             sub.start_at(sfn)
-        time.sleep(0.1)
+        if sc.get('publisher_subscribed'):
+            pub.subscribe(Event(signal=sig))
+        if not sc.get('busy'):
+            time.sleep(0.1)
         if sc['pub_when'] == 'after':
             pub.start_at(pfn)
             time.sleep(0.05)
         pub.post_fifo(Event(signal='C07_DO_PUBLISH'))
         t0 = time.time()
         want = 2 if sc.get('two_signals') else 1
-        while len(log) < want and time.time() - t0 < 0.7:
+        while len(log) < want and time.time() - t0 < (1.2 if sc.get('busy') else 0.7):
             time.sleep(0.01)
         time.sleep(0.05)
         cfg = 'spy=%s subscribe %s start, other subscriber first=%s' % (sc['spy'], sc['when'], sc['other_first'])
@@ -97,6 +113,9 @@ def run(sc):
                 key = '*'
             return False, 'subscriber received %s, expected one each of %d signal(s) (%s)' % (
                 [x.split('_')[-1] for x in log], want, cfg), key
+        if sc.get('publisher_subscribed') and plog.count(sig) != 1:
+            return False, 'the publisher is subscribed to its own signal and received it %d times (%s)' % (plog.count(sig), cfg), \
+                'ao.publish'
         if sc['other_first'] and len(olog) != 1:
             return False, 'publication reached the earlier subscriber %d times (%s)' % (len(olog), cfg), 'ao.publish'
         return True, ''
